@@ -56,7 +56,7 @@ M = [
     ("m11b", ["C11"], "operators.py", "    result = l.meet(join(meet(o.join(a), p.join(b)), meet(o.join(b), p.join(a))))", "    result = l.meet(join(meet(o.join(a), p.join(b)), meet(o.join(b), p.join(b))))"),
     ("m12a", ["C12"], "point.py", "        result = array.astype(dtype)\n", "        result = array if array.dtype == dtype else array.astype(dtype)\n"),
     ("m12b", ["C12"], "curve.py", "        m = outer(g.array, h.array)\n        m += m.T\n        return Conic(m, normalize_matrix=True)", "        m = outer(g.array, h.array)\n        m += m.T\n        g.array = g.array / np.max(np.abs(g.array))\n        return Conic(m, normalize_matrix=True)"),
-    ("m12c", ["C12"], "operators.py", "    o = l.general_point\n    n = l.dim + 1\n", "    o = l.general_point\n    n = l.dim + 1\n    I.array[2] = 0\n    LeviCivitaTensor(3).array[0, 1, 2] = 1\n"),
+    ("m12c", ["C12"], "operators.py", "    o = l.general_point\n    n = l.dim + 1\n", "    o = l.general_point\n    n = l.dim + 1\n    J.array[2] += 1e-13\n"),
     ("m13a", ["C13"], "curve.py", "        r = np.array([vradius**2, hradius**2, 1])", "        r = np.array([hradius**2, vradius**2, 1])"),
     ("m13c", ["C13"], "curve.py", "        m = ace * bde * outer(np.cross(a, d), np.cross(b, c)) - ade * bce * outer(np.cross(a, c), np.cross(b, d))", "        m = ade * bce * outer(np.cross(a, d), np.cross(b, c)) - ace * bde * outer(np.cross(a, c), np.cross(b, d))"),
     ("m13d", ["C13"], "curve.py", "        return n * self._alpha(n) * self.radius ** (n - 1)", "        return n * self._alpha(n) * self.radius ** (n - 1) * (1 if n == 3 else 0.5)"),
